@@ -55,7 +55,7 @@ pub struct Gen<'a> {
     pub kinds_used: Vec<&'static str>,
 }
 
-const STRS: &[&str] = &["ab", "abc", "b", "", "xyz", "a", "a b", "John Smith", "a;b", "{1} of {2}", "f(1) + [2]"];
+const STRS: &[&str] = &["ab", "abc", "b", "", "xyz", "a", "a b", "John Smith", "a;b", "{1} of {2}", "f(1) + [2]", "naïve café — ünïcödé strïng wïth möre thän förty-eïght bytes"];
 /// canonical (normalised) fractional decimals
 const FRACS: &[&str] = &["0.5", "1.5", "2.25", "5.5", "0.1", "7.75", "3.2"];
 
